@@ -3,6 +3,6 @@
 cd /verif
 for d in seeded/*/; do
   id=$(basename $d); prop=${id:0:3}
-  out=$(tools/try_mutant.sh $d/patch.diff $prop 2>&1)
+  out=$(tools/try_mutant.sh /verif/${d}patch.diff $prop 2>&1)
   if echo "$out" | grep -q "^VIOLATION property=$prop"; then echo "$id caught: $(echo "$out" | grep -m1 '^VIOLATION' | cut -c1-150)"; else echo "$id MISSED: $(echo "$out" | tail -2 | tr '\n' ' ' | cut -c1-200)"; fi
 done
